@@ -36,13 +36,27 @@ func (req *SrvReq) RespondError(err interface{}) {
 		return
 	}
 
+	var ename string
+	ecode := uint32(EIO)
 	switch e := err.(type) {
 	case *Error:
-		_ = PackRerror(req.Rc, e.Error(), uint32(e.Errornum), req.Conn.Dotu)
+		ename, ecode = e.Error(), uint32(e.Errornum)
 	case error:
-		_ = PackRerror(req.Rc, e.Error(), uint32(EIO), req.Conn.Dotu)
+		ename = e.Error()
 	default:
-		_ = PackRerror(req.Rc, fmt.Sprintf("%v", e), uint32(EIO), req.Conn.Dotu)
+		ename = fmt.Sprintf("%v", e)
+	}
+
+	if PackRerror(req.Rc, ename, ecode, req.Conn.Dotu) != nil {
+		/* the message does not fit in the reply buffer (tiny msize): shorten the text */
+		max := len(req.Rc.Buf) - (4 + 1 + 2 + 2 + 4)
+		if max < 0 {
+			max = 0
+		}
+		if len(ename) > max {
+			ename = ename[:max]
+		}
+		_ = PackRerror(req.Rc, ename, ecode, req.Conn.Dotu)
 	}
 
 	req.Respond()
